@@ -229,8 +229,8 @@ def run_case(case):
         t = np.cumsum(rng.uniform(0.005, 0.05, m)) if rng.random() < 0.6 else np.arange(1, m + 1) * 0.01
         cols = ['gyro_x', 'gyro_y', 'gyro_z'] if rng.random() < 0.5 else ['accel_x', 'accel_y', 'accel_z']
         clean = pd.DataFrame(rng.standard_normal((m, 3)) * 10 ** rng.uniform(-3, 1), index=pd.Index(t, name='time'), columns=cols)
-        T = np.eye(3) + np.where(sm_on, rng.standard_normal((3, 3)) * 10 ** rng.uniform(-4, -1), 0.0)
-        b = np.where(bias_on, rng.standard_normal(3) * 10 ** rng.uniform(-5, 0), 0.0)
+        T = np.eye(3) + np.where(sm_on, rng.standard_normal((3, 3)) * 10 ** rng.uniform(-9, -1, (3, 3)), 0.0)     # ppm-level and below included
+        b = np.where(bias_on, rng.standard_normal(3) * 10 ** rng.uniform(-9, 0, 3), 0.0)
         sim_par = inertial_sensor.Parameters(T, b)
         noisy = sim_par.apply(clean, sensor_type)
         dt = np.hstack([0, np.diff(t)])
